@@ -5,7 +5,7 @@ package brontide
 // C11 correspondence harness: drives REAL brontide Machines (handshake acts,
 // WriteMessage/Flush against a scripted faulty writer, ReadMessage from an
 // in-memory pipe whose bytes are corrupted / truncated / spliced / replayed /
-// reflected) and, in the thorough tier, brontide.Conn over a faulty net.Conn.
+// reflected) and brontide.Conn pairs over scripted faulty net.Conns.
 // Everything observable is written to VERIF_OUT as JSONL; the Coq model
 // (Noise/Exec.v) replays the same operations and must agree; props/c11.py
 // additionally evaluates the property predicate on this trace alone.
@@ -15,6 +15,7 @@ import (
 	"encoding/hex"
 	"errors"
 	"io"
+	"math"
 	"net"
 	"strings"
 	"testing"
@@ -813,13 +814,20 @@ func vnConfusionCase(r *vrng) map[string]any {
 
 // ---------------------------------------------------------------- Conn level
 
-// faulty in-memory net.Conn: writes are taken in seeded fragments, now and
-// then a Write takes only part of its input and reports a timeout
+// Scripted in-memory net.Conn.  Writing: the i-th Write call since the script
+// was installed takes min(script[i][0], len(p)) bytes and reports a timeout
+// iff script[i][1] != 0 or it took fewer than len(p) bytes; calls beyond the
+// script take everything.  Reading: delivers the peer's bytes in seeded
+// fragments, io.EOF when there are none (io.ReadFull then fails and has
+// consumed what was there, like the model's reader).
 type vnConn struct {
-	r    *vrng
-	buf  *bytes.Buffer // shared with the peer's read side
-	rbuf *bytes.Buffer
-	tmo  int // probability (percent) of a partial write
+	r      *vrng
+	buf    *bytes.Buffer // bytes this side's Write calls were taken
+	rbuf   *bytes.Buffer // the peer's buf
+	script [][2]int
+	pos    int
+	calls  int
+	took   int
 }
 
 type vnTimeoutErr struct{}
@@ -828,13 +836,27 @@ func (vnTimeoutErr) Error() string   { return "verif: i/o timeout" }
 func (vnTimeoutErr) Timeout() bool   { return true }
 func (vnTimeoutErr) Temporary() bool { return true }
 
+func (c *vnConn) install(script [][2]int) {
+	c.script, c.pos, c.calls, c.took = script, 0, 0, 0
+}
+
 func (c *vnConn) Write(p []byte) (int, error) {
-	if len(p) > 0 && c.r.intn(100) < c.tmo {
-		n := c.r.intn(len(p))
-		c.buf.Write(p[:n])
+	k, e := 1<<30, 0
+	if c.pos < len(c.script) {
+		k, e = c.script[c.pos][0], c.script[c.pos][1]
+	}
+	c.pos++
+	c.calls++
+	n := k
+	if n > len(p) {
+		n = len(p)
+	}
+	c.buf.Write(p[:n])
+	c.took += n
+	if e != 0 || n < len(p) {
 		return n, vnTimeoutErr{}
 	}
-	return c.buf.Write(p)
+	return n, nil
 }
 func (c *vnConn) Read(p []byte) (int, error) {
 	// deliver in small fragments
@@ -850,8 +872,287 @@ func (c *vnConn) SetDeadline(t time.Time) error      { return nil }
 func (c *vnConn) SetReadDeadline(t time.Time) error  { return nil }
 func (c *vnConn) SetWriteDeadline(t time.Time) error { return nil }
 
-// Conn.Write / Flush retry / Conn.Read over the faulty conn: exercised by the
-// predicate only (bytes out == bytes in), not modelled.
+// error classes of the Conn calls: the Machine's classes plus 8 = the
+// net.Conn's timeout
+func vnConnCode(err error) int {
+	var te vnTimeoutErr
+	if errors.As(err, &te) {
+		return 8
+	}
+	return vnCode(err)
+}
+
+// payloads: short random strings or a + i mod 251 sequences (so that a lost,
+// duplicated or shifted chunk changes the bytes, and long strings have a short
+// description for the model)
+func vnSeq(n, a int) []byte {
+	p := make([]byte, n)
+	for i := range p {
+		p[i] = byte((a + i) % 251)
+	}
+	return p
+}
+
+func vnConnSpec(p []byte) []any {
+	if len(p) > 48 && p[0] < 251 {
+		ok := true
+		for i := range p {
+			if p[i] != byte((int(p[0])+i)%251) {
+				ok = false
+				break
+			}
+		}
+		if ok {
+			return []any{"seq", len(p), int(p[0])}
+		}
+	}
+	return []any{"lit", vnHex(p)}
+}
+
+func vnScriptJSON(s [][2]int) []any {
+	out := []any{}
+	for _, x := range s {
+		out = append(out, []any{x[0], x[1] != 0})
+	}
+	return out
+}
+
+type vnCn struct {
+	r      *vrng
+	conns  [2]*Conn // index 1: initiator (writes direction d=1), 0: responder
+	ops    []vnOp
+	sent   [2][]byte // bytes completely handed over, per writing side
+	got    [2][]byte // bytes the peer obtained from Read / ReadNext*
+	acct   [2]int    // sum of the counts returned by Write / Flush
+	torn   [2]bool
+	nreads int
+}
+
+func (t *vnCn) nc(d int) *vnConn { return t.conns[d].conn.(*vnConn) }
+
+func (t *vnCn) pending(d int) bool {
+	m := t.conns[d].noise
+	return len(m.nextHeaderSend) > 0 || len(m.nextBodySend) > 0
+}
+
+// a script with one faulty answer for a call sequence header, body, header, ...
+// of a write of n payload bytes; clean with probability pclean percent
+func (t *vnCn) script(n int, pclean int) [][2]int {
+	r := t.r
+	if r.intn(100) < pclean {
+		return nil
+	}
+	chunks := (n + 65534) / 65535
+	if chunks == 0 {
+		chunks = 1
+	}
+	j := r.intn(2 * chunks)
+	buflen := encHeaderSize
+	if j%2 == 1 {
+		cl := n - 65535*(j/2)
+		if cl > 65535 {
+			cl = 65535
+		}
+		if cl < 0 {
+			cl = 0
+		}
+		buflen = cl + macSize
+	}
+	ke := t.pickK(buflen)
+	k, e := ke[0], ke[1]
+	s := make([][2]int, j+1)
+	for i := range s {
+		s[i] = [2]int{1 << 30, 0}
+	}
+	s[j] = [2]int{k, e}
+	return s
+}
+
+// answer to a Write call of buflen bytes: boundaries of the buffer and of its MAC
+func (t *vnCn) pickK(buflen int) [2]int {
+	r := t.r
+	k := 0
+	switch r.intn(9) {
+	case 0:
+		k = 0
+	case 1:
+		k = 1
+	case 2:
+		k = buflen - 1
+	case 3:
+		k = buflen
+	case 4:
+		k = buflen - macSize
+	case 5:
+		k = buflen - macSize - 1 + r.intn(3)
+	case 6:
+		k = buflen - macSize + 1 + r.intn(macSize)
+	default:
+		k = r.intn(buflen + 1)
+	}
+	if k < 0 {
+		k = 0
+	}
+	e := 0
+	if k >= buflen && r.intn(3) == 0 {
+		e = 1
+	}
+	return [2]int{k, e}
+}
+
+// Conn.Flush until it no longer times out
+func (t *vnCn) flushAll(d int, pclean int) {
+	for i := 0; t.pending(d); i++ {
+		pc := pclean
+		if i > 4 {
+			pc = 100
+		}
+		var sc [][2]int
+		if t.r.intn(100) >= pc {
+			m := t.conns[d].noise
+			hl, bl := len(m.nextHeaderSend), len(m.nextBodySend)
+			switch {
+			case hl > 0 && t.r.intn(2) == 0:
+				sc = [][2]int{t.pickK(hl)}
+			case hl > 0:
+				sc = [][2]int{{1 << 30, 0}, t.pickK(bl)}
+			default:
+				sc = [][2]int{t.pickK(bl)}
+			}
+		}
+		t.nc(d).install(sc)
+		n, err := t.conns[d].Flush()
+		t.acct[d] += n
+		t.ops = append(t.ops, vnOp{"cf", vnB(d), vnScriptJSON(sc), n, vnConnCode(err),
+			t.nc(d).calls, t.nc(d).took, t.pending(d)})
+	}
+}
+
+// Conn.Write(p) by a caller that, on a timeout, retries Flush until the record
+// is out and then writes the bytes not yet accounted for
+func (t *vnCn) writeAll(d int, p []byte, pclean int) {
+	for rounds := 0; rounds < 20; rounds++ {
+		sc := t.script(len(p), pclean)
+		t.nc(d).install(sc)
+		before := t.acct[d]
+		n, err := t.conns[d].Write(p)
+		t.acct[d] += n
+		t.ops = append(t.ops, vnOp{"cw", vnB(d), vnConnSpec(p), vnScriptJSON(sc), n,
+			vnConnCode(err), t.nc(d).calls, t.nc(d).took, t.pending(d)})
+		if err == nil {
+			t.sent[d] = append(t.sent[d], p...)
+			return
+		}
+		if vnConnCode(err) != 8 {
+			return
+		}
+		if t.r.intn(4) == 0 {
+			// a write while the record is pending must be refused
+			q := t.r.bytes(1 + t.r.intn(5))
+			if t.r.intn(3) == 0 {
+				q = vnSeq(65536+t.r.intn(10), 3)
+			}
+			t.nc(d).install(nil)
+			n2, err2 := t.conns[d].Write(q)
+			t.ops = append(t.ops, vnOp{"cw", vnB(d), vnConnSpec(q), vnScriptJSON(nil), n2,
+				vnConnCode(err2), t.nc(d).calls, t.nc(d).took, t.pending(d)})
+		}
+		t.flushAll(d, 50)
+		done := t.acct[d] - before
+		t.sent[d] = append(t.sent[d], p[:done]...)
+		p = p[done:]
+		if len(p) == 0 {
+			return
+		}
+		pclean = 70
+	}
+}
+
+func (t *vnCn) writeMessage(d int, p []byte, pclean int) {
+	err := t.conns[d].WriteMessage(p)
+	t.ops = append(t.ops, vnOp{"cwm", vnB(d), vnConnSpec(p), vnConnCode(err), t.pending(d)})
+	if err != nil {
+		return
+	}
+	t.flushAll(d, pclean)
+	t.sent[d] = append(t.sent[d], p...)
+}
+
+// one read call on the receiving side of direction d
+func (t *vnCn) read(d int) {
+	r := t.r
+	o := t.conns[1-d]
+	t.nreads++
+	if o.readBuf.Len() == 0 && r.intn(6) == 0 {
+		if r.intn(2) == 0 {
+			p, err := o.ReadNextMessage()
+			var m any
+			if err == nil {
+				m = vnConnSpec(p)
+				t.got[d] = append(t.got[d], p...)
+			}
+			t.ops = append(t.ops, vnOp{"crn", vnB(d), vnConnCode(err), m})
+			return
+		}
+		l, err := o.ReadNextHeader()
+		t.ops = append(t.ops, vnOp{"crh", vnB(d), vnConnCode(err), int(l)})
+		if err != nil {
+			return
+		}
+		p, err := o.ReadNextBody(make([]byte, l))
+		var m any
+		if err == nil {
+			m = vnConnSpec(p)
+			t.got[d] = append(t.got[d], p...)
+		}
+		t.ops = append(t.ops, vnOp{"crb", vnB(d), int(l), vnConnCode(err), m})
+		return
+	}
+	k := 1 + r.intn(400)
+	rem := o.readBuf.Len()
+	switch r.intn(10) {
+	case 0:
+		k = 0
+	case 1:
+		k = 1
+	case 2:
+		if rem > 0 {
+			k = rem
+		}
+	case 3:
+		if rem > 1 {
+			k = rem - 1
+		}
+	case 4:
+		k = rem + 1
+	case 5:
+		k = 65535
+	case 6:
+		k = 70000 + r.intn(70000)
+	}
+	if rem > 2000 && k < rem/4 && r.intn(4) != 0 {
+		// do not nibble at a big record for ever
+		k = rem/2 + r.intn(rem)
+	}
+	b := make([]byte, k)
+	n, err := o.Read(b)
+	var m any
+	if err == nil {
+		m = vnConnSpec(b[:n])
+		t.got[d] = append(t.got[d], b[:n]...)
+	}
+	t.ops = append(t.ops, vnOp{"cr", vnB(d), k, vnConnCode(err), m})
+}
+
+func (t *vnCn) available(d int) bool {
+	o := t.conns[1-d]
+	return o.readBuf.Len() > 0 || t.nc(1-d).rbuf.Len() > 0
+}
+
+// Conn.Write (one record and chunked) / WriteMessage / Flush retry against a
+// net.Conn that takes part of a Write and times out, Conn.Read in odd buffer
+// sizes, ReadNextMessage / ReadNextHeader+ReadNextBody.  Replayed by the model
+// (Noise/Exec.v kop) and checked by the predicate (bytes out == bytes in).
 func vnConnCase(r *vrng) map[string]any {
 	s := &vnSession{rs: vnKey(r), ls: vnKey(r), ei: vnKey(r), er: vnKey(r)}
 	s.target = s.rs.PubKey()
@@ -865,74 +1166,86 @@ func vnConnCase(r *vrng) map[string]any {
 		panic(err)
 	}
 	ab, ba := &bytes.Buffer{}, &bytes.Buffer{}
-	ca := &Conn{conn: &vnConn{r: r.fork(1), buf: ab, rbuf: ba, tmo: 30}, noise: init}
-	cb := &Conn{conn: &vnConn{r: r.fork(2), buf: ba, rbuf: ab, tmo: 30}, noise: resp}
-	var events []vnOp
-	sent := [2][]byte{}
-	got := [2][]byte{}
-	conns := [2]*Conn{ca, cb}
-	nw := 3 + r.intn(8)
+	t := &vnCn{r: r}
+	t.conns[1] = &Conn{conn: &vnConn{r: r.fork(1), buf: ab, rbuf: ba}, noise: init}
+	t.conns[0] = &Conn{conn: &vnConn{r: r.fork(2), buf: ba, rbuf: ab}, noise: resp}
+	nw := 3 + r.intn(7)
+	big := 0
 	for i := 0; i < nw; i++ {
 		d := r.intn(2)
 		n := 1 + r.intn(300)
-		// (n = 0 is left out: Conn.Read turns an empty record into io.EOF
-		// because bytes.Buffer.Read on an empty buffer does; lnwire never
-		// sends empty messages)
-		switch r.intn(8) {
+		switch r.intn(12) {
 		case 0:
-			n = 65535 + r.intn(3)
-		case 1:
-			n = 65535*2 + r.intn(100)
-		case 2:
+			n = 65534 + r.intn(2)
+		case 1, 2:
+			if big < 2 {
+				big++
+				n = []int{65536, 65535 * 2, 65535*2 + 1, 65535*2 - 1, 65537 + r.intn(70000),
+					65535*3 + r.intn(3)}[r.intn(6)]
+			}
+		case 3:
 			n = 1
+		case 4:
+			n = 0
+		case 5:
+			n = 15 + r.intn(4)
 		}
-		p := r.bytes(n)
-		// lnd's peer writes message by message: WriteMessage, then Flush
-		// until it no longer times out.  Conn.Write is used for the
-		// chunking path with a conn that does not time out.
-		c := conns[d]
-		total := 0
-		if n > 65535 {
-			c.conn.(*vnConn).tmo = 0
-			w, err := c.Write(p)
-			c.conn.(*vnConn).tmo = 30
-			total = w
-			if err != nil {
-				events = append(events, vnOp{"cw_err", d, n, err.Error()})
-			}
+		var p []byte
+		if n > 48 {
+			p = vnSeq(n, r.intn(251))
 		} else {
-			err := c.WriteMessage(p)
-			if err != nil {
-				events = append(events, vnOp{"cw_err", d, n, err.Error()})
-			}
-			for tries := 0; tries < 10000; tries++ {
-				w, err := c.Flush()
-				total += w
-				if err == nil {
-					break
-				}
-			}
+			p = r.bytes(n)
 		}
-		events = append(events, vnOp{"cw", d, n, total})
-		sent[d] = append(sent[d], p...)
-		// read everything available on the other side, in odd sizes
-		o := conns[1-d]
-		for {
-			if o.readBuf.Len() == 0 && o.conn.(*vnConn).rbuf.Len() == 0 {
-				break
+		pclean := 55
+		if r.intn(3) == 0 {
+			pclean = 100
+		}
+		if n <= 65535 && r.intn(3) == 0 {
+			t.writeMessage(d, p, pclean)
+		} else {
+			t.writeAll(d, p, pclean)
+		}
+		// read what is available on the other side, in odd sizes; now and
+		// then leave it for later or read once more at the end of the stream
+		if r.intn(5) != 0 {
+			for j := 0; j < 400 && t.available(d); j++ {
+				t.read(d)
 			}
-			b := make([]byte, 1+r.intn(70000))
-			k, err := o.Read(b)
-			got[d] = append(got[d], b[:k]...)
-			if err != nil {
-				events = append(events, vnOp{"cr_err", d, err.Error()})
-				break
+			if r.intn(4) == 0 {
+				t.read(d)
 			}
 		}
 	}
-	return map[string]any{"kind": "conn", "events": events,
-		"equal": []bool{bytes.Equal(sent[0], got[0]), bytes.Equal(sent[1], got[1])},
-		"sent": []int{len(sent[0]), len(sent[1])}, "got": []int{len(got[0]), len(got[1])}}
+	for d := 0; d < 2; d++ {
+		for j := 0; j < 600 && t.available(d); j++ {
+			t.read(d)
+		}
+	}
+	// a torn record: the peer reads while a record is only partly out
+	if r.intn(3) == 0 {
+		d := r.intn(2)
+		p := r.bytes(1 + r.intn(40))
+		if err := t.conns[d].WriteMessage(p); err == nil {
+			t.ops = append(t.ops, vnOp{"cwm", vnB(d), vnConnSpec(p), 0, true})
+			sc := [][2]int{{1 << 30, 0}, {r.intn(len(p) + macSize), 0}}
+			if r.intn(3) == 0 {
+				sc = [][2]int{{r.intn(encHeaderSize), 0}}
+			}
+			t.nc(d).install(sc)
+			n, err := t.conns[d].Flush()
+			t.acct[d] += n
+			t.ops = append(t.ops, vnOp{"cf", vnB(d), vnScriptJSON(sc), n, vnConnCode(err),
+				t.nc(d).calls, t.nc(d).took, t.pending(d)})
+			t.torn[d] = true
+			t.read(d)
+			t.read(d)
+		}
+	}
+	return map[string]any{"kind": "conn", "ops": t.ops,
+		"equal": []bool{bytes.Equal(t.sent[0], t.got[0]), bytes.Equal(t.sent[1], t.got[1])},
+		"sent":  []int{len(t.sent[0]), len(t.sent[1])}, "got": []int{len(t.got[0]), len(t.got[1])},
+		"acct": []int{t.acct[0], t.acct[1]}, "torn": []bool{t.torn[0], t.torn[1]},
+		"maxmsg": math.MaxUint16}
 }
 
 func TestVerifNoise(t *testing.T) {
